@@ -4,9 +4,10 @@
       every consistent point, the value of the term at the collapsed point and 0 elsewhere; every original point with a
       non-zero value is represented exactly once;  4. the split at a dynamic position (after outer levels), with a
       static validator of the rank structure;  5. two-level stacks by composition (occupancy beneath a shape split,
-      occupancy beneath occupancy);  6. summing over the upper coordinate. *)
+      occupancy beneath occupancy, a shape split beneath occupancy);  6. summing over the upper coordinate;
+   7. bounds_split / equal_split ARE Rt.split_nonuniform / Rt.split_equal under the embedding of Nest tries into Rt tries. *)
 From Coq Require Import ZArith List Bool Lia String Sorted.
-Require TV.Model.Rt TV.Proofs.OccLaws.
+Require TV.Model.Rt TV.Proofs.OccLaws TV.Proofs.RtLaws.
 Require Import TV.Model.Nest TV.Proofs.NestProofs TV.Model.NestPart TV.Proofs.NestPartProofs TV.Model.NestOcc.
 Import ListNotations.
 Open Scope Z_scope.
@@ -1171,3 +1172,129 @@ Proof.
   repeat split; vm_compute; reflexivity.
 Qed.
 End ExamplesSum.
+
+
+(* ---------- 5b. a shape split beneath an occupancy split ---------- *)
+Lemma occ_tstate_NoDup r r1 r0 bs t : NoDup (rem t) -> ~ In r1 (rem t) -> ~ In r0 (rem t) -> r1 <> r0 ->
+  NoDup (rem (occ_tstate r r1 r0 bs t)).
+Proof.
+  intros Hnd H1 H0 Hne. unfold occ_tstate. destruct t as [rs cu]; cbn [rem cur] in *. destruct rs as [|x rest]; [exact Hnd|].
+  destruct (String.eqb x r); cbn [rem]; [|exact Hnd]. apply NoDup_cons_iff in Hnd as [_ Hnd].
+  constructor; [intros [E|H]; [congruence|apply H1; right; exact H]|].
+  constructor; [intros H; apply H0; right; exact H|exact Hnd].
+Qed.
+
+Lemma holds_occ_tstate r r1 r0 bs t : r1 <> r0 -> participates r t = true -> holds r0 (occ_tstate r r1 r0 bs t) = true.
+Proof.
+  intros Hne Hp. unfold participates in Hp. unfold occ_tstate, holds. destruct t as [rs cu]; cbn [rem cur] in *.
+  destruct rs as [|x rest]; [discriminate|]. rewrite Hp. cbn [rem index_of].
+  destruct (String.eqb_spec r1 r0); [contradiction|]. rewrite String.eqb_refl. reflexivity.
+Qed.
+
+Theorem shape_beneath_occ_sound : forall Lo r r2 rx n k r1 r0 s Li tm,
+  ~ In r Lo -> ~ In rx Lo -> r2 <> rx ->
+  wf_outer Lo (occ_shape_state_ok r r2 rx n k r1 r0 s Li) [tm] ->
+  forall p, sum_at p (run_then_split Lo (occ_then_shape r r2 rx n k r1 r0 s) Li [tm]) =
+            if consistent r1 r0 s p && occ_consistent (leader_bounds n k (reach_term Lo p tm)) r2 rx (collapse rx r0 p)
+            then term_den tm (collapse r rx (collapse rx r0 p)) else 0.
+Proof.
+  intros Lo r r2 rx n k r1 r0 s Li tm Hr Hrx Hne Hwf p. unfold run_then_split. rewrite run_k_sum.
+  set (q := collapse r rx (collapse rx r0 p)).
+  assert (Hq : forall x, In x Lo -> q x = p x).
+  { intros x Hx. unfold q. rewrite (collapse_outer r rx _ Lo Hr x Hx). apply (collapse_outer rx r0 p Lo Hrx x Hx). }
+  destruct (along Lo p [tm]) eqn:Ea.
+  - pose proof (wf_outer_reach Lo _ [tm] p Hwf) as [Hok Hwfi]. rewrite reach_single in *.
+    set (tmA := reach_term Lo p tm) in *. cbn [map] in *.
+    destruct (Hok _ (or_introl eq_refl)) as [Hto [Hld Hfresh]].
+    rewrite (nest_sound Li _ Hwfi p). cbn [body_den fold_right]. rewrite Z.add_0_r. unfold occ_then_shape.
+    rewrite term_den_part.
+    2:{ intros t Ht. unfold occ_split, split_term_at in Ht. apply in_map_iff in Ht as [t0 [<- Ht0]].
+        destruct (Hto t0 Ht0) as [Hnd _]. destruct (Hfresh t0 Ht0) as [H2 Hx]. apply occ_tstate_NoDup; assumption. }
+    assert (Hh : existsb (holds rx) (occ_split r r2 rx n k tmA) = true).
+    { destruct Hld as [ld [Hk [Hp _]]]. apply existsb_exists. exists (occ_tstate r r2 rx (leader_bounds n k tmA) ld).
+      split; [unfold occ_split, split_term_at; apply in_map; eapply nth_error_In; exact Hk|apply holds_occ_tstate; assumption]. }
+    rewrite Hh. destruct (consistent r1 r0 s p); cbn [andb]; [|reflexivity].
+    rewrite (term_den_occ_split r r2 rx n k tmA _ Hto Hld).
+    destruct (occ_consistent (leader_bounds n k tmA) r2 rx (collapse rx r0 p)); [|reflexivity].
+    pose proof (body_den_reach Lo p q [tm] Hq) as E. rewrite reach_single in E. fold tmA in E.
+    cbn [body_den fold_right] in E. fold q. lia.
+  - pose proof (not_along_zero Lo _ p q [tm] Hwf Hq Ea) as E. cbn [body_den fold_right] in E. fold q.
+    destruct (_ && _); lia.
+Qed.
+
+Section ExamplesSB.
+Local Open Scope string_scope.
+(* Z = A[k] * B[k]; K: [uniform_occupancy(A.4), uniform_shape(2)], loop order K2, K1, K0 *)
+Example shape_beneath_occ_example :
+  let tm := [exs_A; exs_B] in
+  wf_outer [] (occ_shape_state_ok "K" "K2" "KX" 4 0 "K1" "K0" 2 ["K2"; "K1"; "K0"]) [tm] /\
+  run_then_split [] (occ_then_shape "K" "K2" "KX" 4 0 "K1" "K0" 2) ["K2"; "K1"; "K0"] [tm] =
+    [([("K2", 0); ("K1", 0); ("K0", 1)], 20); ([("K2", 0); ("K1", 2); ("K0", 2)], 60);
+     ([("K2", 6); ("K1", 6); ("K0", 6)], 200); ([("K2", 6); ("K1", 8); ("K0", 9)], 350)].
+Proof.
+  cbv zeta. split; [|vm_compute; reflexivity]. cbn [wf_outer]. split.
+  - intros tm' [<-|[]]. split; [apply term_okb_sound; vm_compute; reflexivity|].
+    split; [apply leader_okb_sound; vm_compute; reflexivity|].
+    intros t [<-|[<-|[]]]; split; cbn; intros H; repeat (destruct H as [H|H]; [discriminate|]); exact H.
+  - apply swf_wf. vm_compute. reflexivity.
+Qed.
+End ExamplesSB.
+
+(* ---------- 7. the operations are the interpreter's (Model/Rt.v) under the embedding to_rt ---------- *)
+Lemma to_rt_node l : to_rt (Node l) = Rt.TNode (map to_rt_ct l).
+Proof. reflexivity. Qed.
+
+Lemma filter_map_comm {A B} (f : B -> bool) (g : A -> B) l : filter f (map g l) = map g (filter (fun x => f (g x)) l).
+Proof.
+  induction l as [|x l IH]; [reflexivity|]. cbn [map filter]. destruct (f (g x)); [cbn [map]; f_equal; exact IH|exact IH].
+Qed.
+
+(* splitNonUniform: NestOcc.bounds_split is Rt.split_bounds *)
+Lemma split_bounds_to_rt bs l :
+  Rt.split_bounds (map Rt.VInt bs) (map to_rt_ct l) = map to_rt_ct (bounds_split bs l).
+Proof.
+  induction bs as [|b bs IH]; [reflexivity|]. cbn [map Rt.split_bounds bounds_split].
+  rewrite filter_map_comm. rewrite IH.
+  assert (E : filter (fun x : coord * trie =>
+                 Rt.vleb (Rt.VInt b) (fst (to_rt_ct x)) &&
+                 match match map Rt.VInt bs with b' :: _ => Some b' | [] => None end with
+                 | Some h => Rt.vltb (fst (to_rt_ct x)) h | None => true end) l
+              = filter (fun ct : coord * trie => in_window b bs (fst ct)) l).
+  { apply filter_ext. intros x. unfold to_rt_ct, in_window. cbn [fst]. rewrite RtLaws.vleb_int.
+    destruct bs as [|b' bs']; cbn [map]; [reflexivity|]. rewrite RtLaws.vltb_int. reflexivity. }
+  rewrite E. destruct (filter (fun ct : coord * trie => in_window b bs (fst ct)) l) as [|x sel]; [reflexivity|].
+  cbn [map]. reflexivity.
+Qed.
+
+Theorem bounds_split_is_split_nonuniform bs l :
+  Rt.split_nonuniform (map Rt.VInt bs) (to_rt (Node l)) = Some (to_rt (Node (bounds_split bs l))).
+Proof. rewrite !to_rt_node. cbn [Rt.split_nonuniform]. rewrite split_bounds_to_rt. reflexivity. Qed.
+
+Lemma chunks_map {A B} (g : A -> B) n : forall fuel l, Rt.chunks fuel n (map g l) = map (map g) (Rt.chunks fuel n l).
+Proof.
+  induction fuel as [|f IH]; intros l; [reflexivity|]. destruct l as [|x l]; [reflexivity|].
+  cbn [Rt.chunks map]. change (g x :: map g l) with (map g (x :: l)).
+  rewrite firstn_map, skipn_map, IH. reflexivity.
+Qed.
+
+(* splitEqual: NestOcc.equal_split is Rt.split_equal *)
+Theorem equal_split_is_split_equal n l : (0 < n)%nat ->
+  Rt.split_equal (Z.of_nat n) (to_rt (Node l)) = Some (to_rt (Node (equal_split (S (List.length l)) n l))).
+Proof.
+  intros Hn. rewrite !to_rt_node. unfold Rt.split_equal.
+  destruct (Z.leb_spec (Z.of_nat n) 0); [lia|]. rewrite Nat2Z.id, map_length. f_equal. f_equal.
+  rewrite (equal_split_chunks n Hn), chunks_map, !map_map. apply map_ext_in. intros ch Hch.
+  unfold to_rt_ct at 3. cbn [fst snd]. rewrite to_rt_node. f_equal.
+  destruct ch as [|ct ch]; [|reflexivity].
+  exfalso. pose proof (OccLaws.chunks_sizes n Hn (S (List.length l)) l (Nat.lt_succ_diag_r _)) as Hs.
+  rewrite Forall_forall in Hs. destruct (Hs [] Hch) as [Hne _]. apply Hne. reflexivity.
+Qed.
+
+(* hence, for the leader, the two runtime operations agree: splitNonUniform at the boundaries of splitEqual(n) is
+   splitEqual(n) *)
+Corollary leader_split_nonuniform_is_split_equal n l : (0 < n)%nat -> StronglySorted Z.lt (keys l) ->
+  Rt.split_nonuniform (map Rt.VInt (chunk_starts n l)) (to_rt (Node l)) = Rt.split_equal (Z.of_nat n) (to_rt (Node l)).
+Proof.
+  intros Hn Hs. rewrite bounds_split_is_split_nonuniform, (equal_split_is_split_equal n l Hn).
+  rewrite (leader_equal_split n Hn (S (List.length l)) l (Nat.lt_succ_diag_r _) Hs). reflexivity.
+Qed.
